@@ -125,6 +125,7 @@ def run_history(repo: Repo, calls, binned: bool = False, keep_table: bool = Fals
                 if k < len(calls) - 1:
                     return EARLIER_CALL_RAISED
                 raise
+            it.end_of_call()
         return last
 
     outs = interp.run_all(go)
